@@ -388,8 +388,11 @@ def text_work(a):
                     if cand:
                         k = r.choice(cand)
                         l = lines[k]
-                        how = r.randrange(8)
-                        if how == 0:
+                        how = r.randrange(10)
+                        if how >= 8 and b"=0s" in l:
+                            # base64 values whose digit count is not a multiple of four: padding removed / a digit removed or added
+                            l = r.choice([l.rstrip(b"="), l.rstrip(b"=")[:-1], l.rstrip(b"=") + b"A", l[:-1], l.replace(b"=", b"", l.count(b"=") - 1) if l.count(b"=") > 1 else l + b"="])
+                        elif how == 0:
                             l = l + b"\\"
                         elif how == 1:
                             l = l.rstrip(b'"')                                   # closing quote gone
@@ -407,6 +410,8 @@ def text_work(a):
                             l = l[:r.randrange(len(l) + 1)] + b"\\"
                         lines[k] = l
                         b = bytearray(b"\n".join(lines))
+                elif kind == "lineend" and False:
+                    pass
                 elif kind == "dupline":
                     lines = bytes(b).split(b"\n")
                     lines.insert(r.randrange(len(lines)), r.choice(lines))
